@@ -5,7 +5,7 @@ seed=$1; prop=$2; tier=${3:-quick}
 d=/var/tmp/seedtry-$seed-$$
 rm -rf $d; mkdir -p $d
 rsync -a --exclude '*.so' --exclude build --exclude __pycache__ /repo/ $d/
-( cd $d && git apply --3way /verif/seeded/$seed/patch.diff 2>/dev/null || git apply /verif/seeded/$seed/patch.diff ) || { echo "ERROR $seed: patch does not apply to current /repo HEAD"; rm -rf $d; exit 2; }
+( cd $d && git apply /verif/seeded/$seed/patch.diff 2>/dev/null || patch -p1 -F3 -s --no-backup-if-mismatch < /verif/seeded/$seed/patch.diff ) || { echo "ERROR $seed: patch does not apply to current /repo HEAD"; rm -rf $d; exit 2; }
 cd /verif && VERIF_REPO=$d ./check $prop --tier $tier > /var/tmp/seedtry-$seed-$prop.log 2>&1; rc=$?
 rm -rf $d
 if grep -q "^VIOLATION property=$prop" /var/tmp/seedtry-$seed-$prop.log; then echo "CAUGHT $seed by $prop ($tier) rc=$rc: $(grep -A1 '^VIOLATION' /var/tmp/seedtry-$seed-$prop.log | head -2 | tr '\n' ' ')"; else echo "MISSED $seed by $prop ($tier) rc=$rc: $(tail -1 /var/tmp/seedtry-$seed-$prop.log)"; fi
